@@ -138,8 +138,10 @@ open Ord Ord.Rune
 spacers, except that spacers at or past the last letter are dropped. -/
 theorem c32_spaced_parse_print (r sp : Nat) (hr : r < 2 ^ 128) :
     parse (print r sp) = .ok (r, sp % 2 ^ ((Rune.print r).length - 1)) := by
+  unfold parse
+  generalize Ord.Generated.SpacedRuneFix.shlFixed = fx
   obtain ⟨hne, hup, _, hlen⟩ := c32_print_is_name r hr
-  have hloop := parseLoop_interleave sp (Rune.print r) [] hne hup (by simp; omega)
+  have hloop := parseLoop_interleave fx sp (Rune.print r) [] hne hup (by simp; omega)
   simp only [List.length_nil, Nat.pow_zero, Nat.mod_one, Nat.zero_add, List.append_nil,
     List.reverse_reverse] at hloop
   have hL : 1 ≤ (Rune.print r).length := by
@@ -149,9 +151,10 @@ theorem c32_spaced_parse_print (r sp : Nat) (hr : r < 2 ^ 128) :
   have hlt : sp % 2 ^ ((Rune.print r).length - 1) < 2 ^ ((Rune.print r).length - 1) :=
     Nat.mod_lt _ (Nat.two_pow_pos _)
   have hbl := bitLen_le hlt
-  have h1 : ¬ ((Rune.print r).length ≥ 2 ^ 32) := by omega
+  have h1 : ¬ (fx = false ∧ (Rune.print r).length ≥ 2 ^ 32) := by intro ⟨_, h⟩; omega
+  have hmin : min (Rune.print r).length (2 ^ 32 - 1) = (Rune.print r).length := by omega
   have h2 : ¬ (bitLen (sp % 2 ^ ((Rune.print r).length - 1)) ≥ (Rune.print r).length) := by omega
-  simp only [parse, print, hloop, h1, h2, if_false, c32_parse_print r hr]
+  simp only [parseWith, print, hloop, h1, hmin, h2, if_false, c32_parse_print r hr]
 
 /-- What is printed: the name with `•` after letter `i` exactly when `i` is not the last
 letter and bit `i` of the spacers is set (definition of `interleave`); in particular a mask
@@ -165,7 +168,7 @@ string back (with every `.` written as `•`), and the parsed mask has no bit at
 letter: accepted strings and pairs `(rune, spacers < 2^(len−1))` correspond one-to-one. -/
 theorem c32_spaced_print_parse (s : List Char) (r sp : Nat) (h : parse s = .ok (r, sp)) :
     print r sp = normalize s ∧ sp < 2 ^ ((Rune.print r).length - 1) := by
-  obtain ⟨hne, hb, hr, hsp, hnorm⟩ := parse_ok s r sp h
+  obtain ⟨hne, hb, hr, hsp, hnorm⟩ := parse_ok _ s r sp h
   have hup : ∀ c ∈ s.filter isUpper, isUpper c = true := by
     intro c hc; exact (List.mem_filter.mp hc).2
   have hparse : Rune.parse (s.filter isUpper) = .ok r :=
